@@ -4,7 +4,7 @@ T=$1; BASEC=$2; ROUND=${3:-2}; P=${T%[b-z]}
 for n in 1 2 3; do
   S=/tmp/seed/$T/_seed/$n; D=/verif/seeded/$T-$n
   [ -d $S ] || { echo "missing $S"; continue; }
-  mkdir -p $D; cp $S/patch.diff $S/demo.py $D/
+  mkdir -p $D; cp $S/patch.diff $S/demo.py $D/; [ -f $S/../common.py ] && cp $S/../common.py $D/
   python3 - "$S/meta.json" "$D/meta.json" "$P" "$BASEC" "$ROUND" <<'PY'
 import json,sys
 src,dst,p,base,rnd=sys.argv[1:]
